@@ -45,6 +45,9 @@ def diff (rep : IO.Ref Report) (lineno : Nat) (kind : String) (detail : String) 
   rep.modify fun r => { r with diffs := r.diffs + 1 }
   IO.println s!"DIFF line={lineno} kind={kind} {detail}"
 
+def diffIf (c : Bool) (rep : IO.Ref Report) (lineno : Nat) (kind : String) (detail : String) : IO Unit :=
+  if c then diff rep lineno kind detail else pure ()
+
 def ok (rep : IO.Ref Report) : IO Unit := rep.modify fun r => { r with checked := r.checked + 1 }
 
 end Driver
